@@ -69,7 +69,18 @@ func lockKey(fn *ssa.Function, recv ssa.Value) string {
 				name = fmt.Sprintf("p%d", i)
 			}
 		}
+	case *ssa.FreeVar:
 		// a closure's captured receiver resolves to the enclosing function's parameter
+		if pr := capturedParam(r); pr != nil {
+			for i, q := range pr.Parent().Params {
+				if q == pr {
+					name = fmt.Sprintf("p%d", i)
+				}
+			}
+		}
+		if name == "" {
+			name = "v:" + root.Name()
+		}
 	case *ssa.Global:
 		name = "g:" + r.Name()
 	default:
@@ -102,6 +113,82 @@ func lockOpOf(fn *ssa.Function, ci ssa.CallInstruction) *lockOp {
 	return &lockOp{Key: lockKey(fn, ci.Common().Args[0]), Op: op, Call: ci}
 }
 
+// capturedParam: the parameter of the enclosing function that a free variable of a closure stands
+// for (the variable is captured by reference: the binding is the alloc the parameter was spilled to).
+func capturedParam(fv *ssa.FreeVar) *ssa.Parameter {
+	cl := fv.Parent()
+	par := cl.Parent()
+	if par == nil {
+		return nil
+	}
+	idx := -1
+	for i, f := range cl.FreeVars {
+		if f == fv {
+			idx = i
+		}
+	}
+	var out *ssa.Parameter
+	n := 0
+	eachInstr(par, func(in ssa.Instruction) {
+		mc, ok := in.(*ssa.MakeClosure)
+		if !ok || mc.Fn != ssa.Value(cl) || idx < 0 || idx >= len(mc.Bindings) {
+			return
+		}
+		switch b := mc.Bindings[idx].(type) {
+		case *ssa.Parameter:
+			out = b
+			n++
+		case *ssa.Alloc:
+			// exactly one store, of a parameter
+			var stored []ssa.Value
+			for _, ref := range *b.Referrers() {
+				if st, ok := ref.(*ssa.Store); ok && st.Addr == ssa.Value(b) {
+					stored = append(stored, st.Val)
+				}
+			}
+			if len(stored) == 1 {
+				if p, ok := stored[0].(*ssa.Parameter); ok {
+					out = p
+					n++
+				}
+			}
+		case *ssa.FreeVar:
+			if p := capturedParam(b); p != nil {
+				out = p
+				n++
+			}
+		}
+	})
+	if n != 1 {
+		return nil
+	}
+	return out
+}
+
+// deferredClosureUnlocks: the unlock operations a deferred function literal performs on every run
+// (calls in its entry block), keyed in terms of the enclosing function.
+func deferredClosureUnlocks(d *ssa.Defer) []string {
+	mc, ok := d.Call.Value.(*ssa.MakeClosure)
+	if !ok {
+		return nil
+	}
+	cf, ok := mc.Fn.(*ssa.Function)
+	if !ok || len(cf.Blocks) == 0 {
+		return nil
+	}
+	var out []string
+	for _, ins := range cf.Blocks[0].Instrs {
+		ci, ok := ins.(*ssa.Call)
+		if !ok {
+			continue
+		}
+		if op := lockOpOf(cf, ci); op != nil && (op.Op == "unlock" || op.Op == "runlock") && !strings.HasPrefix(op.Key, "v:") {
+			out = append(out, op.Key)
+		}
+	}
+	return out
+}
+
 // LockInfo holds the result of the analysis for one function.
 type LockInfo struct {
 	Fn       *ssa.Function
@@ -129,6 +216,11 @@ func lockSets(fn *ssa.Function) *LockInfo {
 			ci, ok := ins.(ssa.CallInstruction)
 			if !ok {
 				continue
+			}
+			if d, isDefer := ins.(*ssa.Defer); isDefer {
+				for _, k := range deferredClosureUnlocks(d) {
+					li.Deferred[k] = true
+				}
 			}
 			op := lockOpOf(fn, ci)
 			if op == nil {
